@@ -328,6 +328,18 @@ def c10a_clone_from_clears(prog):
     cl_ = [(b, t) for b, t in body.calls(lambda c: c['name'] == 'clone' and c.get('trait') == 'core::clone::Clone' and 'Archetype' in (c.get('res') or c)['path'])]
     ins = [(b, t) for b, t in body.calls(lambda c: c['name'] == 'insert' and c['path'].startswith('archetypes::Archetypes'))]
     mins = [(b, t) for b, t in body.calls(lambda c: c['name'] == 'insert' and 'HashMap' in c['path']) if (receiver_name(prog, body, t['args'][0]) or '').endswith('identifier_map')]
+    # every iteration of the source loop clones the archetype one way or the other
+    src_its = [(b, t) for b, t in its if (receiver_name(prog, body, t['args'][0]) or '').startswith('source')]
+    if len(cf) == 1 and len(ins) == 1 and src_its:
+        sb0 = src_its[0][0]
+        nxt = [(b, t) for b, t in body.calls(lambda c: c['path'] == 'core::iter::Iterator::next') if b in body.reachable_after(sb0) and cf[0][0] in body.reachable_after(b) and b in body.reachable_after(cf[0][0])]
+        for nb, nt in nxt:
+            # from the loop body entry, can we come back to `next` avoiding both clone sites?
+            for succ in body.normal_succ(nb):
+                pass
+            esc = body.reachable_after(nb, avoid=[cf[0][0], ins[0][0]])
+            if nb in esc:
+                r.viol('C10a', 'source-archetype-skipped', f.loc(nt['ln']), 'an iteration over the source archetypes can finish without cloning that archetype into the destination (neither clone_from nor clone+insert): identifier_map stays incomplete and lookups later point into the source world')
     if len(cf) != 1 or len(cl_) != 1 or len(ins) != 1:
         r.viol('C10a', 'source-loop-shape', f.loc(), 'each source archetype must be cloned into the matching table or cloned and inserted (found clone_from=%d clone=%d insert=%d)' % (len(cf), len(cl_), len(ins)))
     else:
@@ -339,7 +351,7 @@ def c10a_clone_from_clears(prog):
     return r
 
 
-@rule('A2', props=['C06', 'C10', 'C16', 'C02'], floor=3, configs=('all',))
+@rule('A2', props=['C06', 'C10', 'C16', 'C02'], floor=4, configs=('all',))
 def a2_free_list_provenance(prog):
     """The free list is an ordered queue (it decides which identifier the next insert returns and takes
     part in equality): Allocator::clone / clone_from copy it wholesale from the source's `free`, and the
@@ -383,6 +395,17 @@ def a2_free_list_provenance(prog):
             r.viol('A2', 'clone_from/free-rebuilt', g.loc(t['ln']), 'Allocator::clone_from rebuilds the free list element by element (%s): order of reuse differs from the source' % t['f']['name'])
     else:
         r.viol('A2', 'clone_from/missing', '-', 'Allocator::clone_from not found')
+    # writer: SerializeFree iterates the free queue itself (its order is what the reader restores)
+    fs = [f for f in prog.fns.values() if f.name == 'serialize' and f.impl and is_adt(f.impl['self'], 'entity::allocator::impl_serde::SerializeFree')]
+    if len(fs) == 1:
+        f = fs[0]
+        body = f.body
+        r.inst('SerializeFree::serialize iterates free')
+        its = [(b, t) for b, t in body.calls(lambda c: c['name'] in ('into_iter', 'iter')) if t['args'] and ty_mentions(body.place_ty(op_place(t['args'][0])) or {}, lambda n: n.get('k') == 'adt' and n['path'].endswith('VecDeque'))]
+        ok = any((receiver_name(prog, body, t['args'][0]) or '').endswith('.free') for b, t in its)
+        elems = [(b, t) for b, t in body.calls(lambda c: c['name'] == 'serialize_element')]
+        if not ok or not elems or not all(any(b in body.reachable_after(ib) for ib, it in its) for b, t in elems):
+            r.viol('A2', 'serialize/free-not-iterated', f.loc(), 'the serialised free list is not produced by iterating the allocator\'s free queue in queue order')
     fs = [f for f in prog.fns.values() if f.name == 'from_serialized_parts' and 'allocator' in f.path]
     if len(fs) == 1:
         f = fs[0]
